@@ -70,13 +70,13 @@ func (r *Report) add(o *Obligation) *Obligation {
 }
 
 func (r *Report) ok(rule, key, pos, detail string, props ...string) {
-	r.add(&Obligation{Rule: rule, Key: key, Pos: pos, Status: Discharged, Detail: detail, Props: props})
+	r.add(&Obligation{Rule: rule, Key: key, Pos: pos, Status: Discharged, Detail: detail, Props: append([]string(nil), props...)})
 }
 func (r *Report) bad(rule, key, pos, detail string, props ...string) *Obligation {
-	return r.add(&Obligation{Rule: rule, Key: key, Pos: pos, Status: Violated, Detail: detail, Props: props})
+	return r.add(&Obligation{Rule: rule, Key: key, Pos: pos, Status: Violated, Detail: detail, Props: append([]string(nil), props...)})
 }
 func (r *Report) undecided(rule, key, pos, detail string, props ...string) {
-	r.add(&Obligation{Rule: rule, Key: key, Pos: pos, Status: Undecided, Detail: detail, Props: props})
+	r.add(&Obligation{Rule: rule, Key: key, Pos: pos, Status: Undecided, Detail: detail, Props: append([]string(nil), props...)})
 }
 func (r *Report) note(format string, a ...any) { r.Notes = append(r.Notes, fmt.Sprintf(format, a...)) }
 func (r *Report) assume(s string) {
